@@ -39,6 +39,8 @@ def handleLine (payload : String) : String :=
   let C := cryptoOfFacts ts
   match ts with
   | "e2e" :: which :: _ =>
+    -- `resume`: the dialer only accepts a peer that proves possession of the dialed key
+    -- (theorem wrong_key_rejected), whatever sessions it had before
     if which == "right" then "established client-sees-holder server-sees-holder dialed-match" else "refused"
   | "ne" :: key :: _ =>
     let k := hx key
